@@ -52,6 +52,8 @@ def run(P, R, L):
     from . import blind as _blind
     R.clause("ENUM-1", "the hand-written tag decoders (Operation, BlockType, compression type, manifest field tags) invert the enums' discriminants")
     R.once(_blind.enum1_tag_decoders, P, R, L)
+    R.clause("BLKR-1", "the block reader parses entries while the cursor is below the end of the entry area (no minimum-size cut-off)")
+    R.once(_blind.blkr1_reader_consumes_every_entry, P, R, L)
     R.clause("BLKW-1", "the entry header lengths of a block reach the buffer only as varint-encoder output")
     R.once(_blind.blkw1_entry_header_through_the_codec, P, R, L)
     R.clause("OWN-15", "`not in this file` is built only by Table::get")
